@@ -10,15 +10,18 @@ private def op? : Sexp → Option MOp
   | .atom "w" => some (.op (.write fun f => { f with a := f.a + 1 }))
   | .atom "c" => some .call
   | .atom "r" => some .ret
-  | .atom "l" => some .leave
+  | .atom "l" => some (.leave none)
+  | .list [.atom "l", d] => do some (.leave (some (← d.nat?)))
+  | .atom "g" => some .gosub
+  | .atom "t" => some .gret
   | _ => none
 
 def handle (cmd : String) (args : List Sexp) : Option String :=
   match cmd, args with
-  -- (frames.depths (u|o|w|c|r|l ...)) -> depth of register_stack before each instruction
+  -- (frames.depths (u|o|w|c|r|l|(l d)|g|t ...)) -> depth of register_stack before each instruction
   | "frames.depths", [.list ops] => do
       let ops ← ops.mapM op?
-      pure ("(" ++ " ".intercalate ((depths ([Frame.fresh], []) ops).map toString) ++ ")")
+      pure ("(" ++ " ".intercalate ((depths MSt.init ops).map toString) ++ ")")
   | _, _ => none
 
 end RbModel.Drv.Frames
